@@ -46,8 +46,8 @@ C10(r) == Succeeded(r) => Complete(r) /\ Strict(r)
 C11(r) ==
     /\ r.panicked = "" /\ r.canary /\ r.srcok
     /\ r.n >= 0 /\ r.n <= r.dstLen
-    /\ (r.dstLen >= r.bound => r.n > 0 /\ ~r.err)
-    /\ (r.n = 0 => r.dstLen < r.bound)
+    /\ (r.dstLen >= r.bound \/ r.dstLen >= r.realBound => r.n > 0 /\ ~r.err)
+    /\ (r.n = 0 => r.dstLen < r.bound /\ r.dstLen < r.realBound)
     /\ (r.n > 0 => Complete(r))
 
 Obligation(r) ==
